@@ -119,6 +119,11 @@ class Shard:
         self.round += 1
         if self.replay_target is not None:
             return self.round > self.replay_target
+        # an operation cap (plan["max_evaluations"], shared evenly by the shards) ends a run before its time budget on a
+        # fast machine, so that the volume reported in the evidence does not depend on how fast the machine happens to be
+        cap = self.params.get("_max_eval") if isinstance(self.params, dict) else None
+        if cap and self.evaluations >= cap / self.nshards:
+            return True
         return time.monotonic() >= self.t_end
 
     def past(self, fraction):
@@ -259,6 +264,8 @@ def run_property(mod, tier, seed, replay=None):
     params = plan.get("params", {})
     if hasattr(mod, "prepare"):
         params = mod.prepare(tier, seed, bins, params) or params
+    if plan.get("max_evaluations") and isinstance(params, dict):
+        params = dict(params, _max_eval=plan["max_evaluations"])
 
     if replay is not None:
         payload = json.load(open(replay))
